@@ -222,6 +222,8 @@ Fixpoint designator (fuel : nat) (p : pstate) : result pstate :=
       if match t_kind (ty p t) with KArray => false | _ => true end then Err ErrIdxNotArray
       else
         let bsz := tsize p (t_base (ty p t)) in
+        (* if (t->base->size && i > ULLONG_MAX / t->base->size - 1) error(...) *)
+        if negb (bsz =? 0) && ((M64 - 1) / bsz - 1 <? n) then Err ErrIdxTooLarge else
         let idx := w64 (n * bsz) in
         r <- (if tsize p t <=? idx then
                 if negb (tinc p t) then Err ErrIdxTooLarge else Ok (set_tsize p t (w64 (idx + bsz)))
